@@ -311,9 +311,9 @@ class NetAddr():
         res += self._strpad4(len(msg[1:]) + 1)  # Type tag string.
         for val in msg[1:]:
             if isinstance(val, str):
-                res += self._strpad4(len(val))
+                res += self._strpad4(len(val.encode('utf-8')))
             elif isinstance(val, (bytes, bytearray, memoryview)):
-                res += len(val) + 4  # Blob size bytes.
+                res += self._pad4(len(val)) + 4  # Blob size bytes.
             elif isinstance(val, list):
                 # Arrays are messages converted to blobs.
                 res += self._calc_msg_dgram_size(val) + 4  # Blob size bytes.
@@ -325,6 +325,11 @@ class NetAddr():
     def _strpad4(n):
         # Pad to 4 or add null if mod is zero.
         return n + 4 - (n & 3)
+
+    @staticmethod
+    def _pad4(n):
+        # Pad to 4, blobs have no null terminator.
+        return n + (-n & 3)
 
     def __eq__(self, other):
         if type(self) == type(other):
